@@ -293,6 +293,29 @@ def check(ctx, replay=None):
             viol("the policy path is spelled through %s: the target does not observe the decisions of the file the path names (probes %s, expected [1, 1, 38, 1, 38])" % (what, got), res,
                  {"policy": "(-policy %s) = " % path + GOOD})
     ctx.cov["policy_path_spellings"] = nspell
+    # "malformed", realised in more ways than an unclosed bracket: bytes that are not UTF-8 (YAML text is Unicode) in a comment, in a key
+    # and in a syscall name, a control character, a tab as indentation, an unterminated quote, a mapping value where none can stand
+    gb = GOOD.encode()
+    malformed = {"a byte that is not UTF-8 in a comment": b"# policy f\xfcr den Dienst\n" + gb,
+                 "a byte that is not UTF-8 in a key": gb.replace(b"    names:\n    - tuxcall", b"    na\xeemes:\n    - tuxcall"),
+                 "a byte that is not UTF-8 in a syscall name": gb.replace(b"- security", b"- secur\xffity"),
+                 "an overlong UTF-8 sequence in a comment": b"# \xc0\xaf\n" + gb,
+                 "a control character in a value": gb.replace(b"default_action: allow", b"default_action: al\x01low"),
+                 "a tab as indentation": gb.replace(b"  default_action", b"\tdefault_action"),
+                 "an unterminated quote": gb.replace(b"- tuxcall", b"- \"tuxcall"),
+                 "a mapping value where none can stand": gb.replace(b"default_action: allow", b"default_action: allow: yes")}
+    for what, data in malformed.items():
+        idx += 1
+        mp = os.path.join(scratch, "malformed_%d.yml" % idx)
+        with open(mp, "wb") as f:
+            f.write(data)
+        os.chmod(mp, 0o644)
+        res = run_sandbox(d, scratch, "none", idx, policy_path=mp)
+        ctx.cov["evaluations"] += 1
+        ctx.cov["distinct_nontrivial"] += 1
+        if res is not None and (res["rc"] == 0 or res["marker"]):
+            viol("the policy file is malformed (%s): %s" % (what, "the target was started" if res["marker"] else "exit status 0"), res, {"policy": repr(data[:400])})
+    ctx.cov["malformed_realisations"] = len(malformed)
     for where, text in UNKNOWN_VARIANTS.items():
         idx += 1
         res = run_sandbox(d, scratch, "none", idx, policy_text=text)
